@@ -45,7 +45,9 @@ func jprobes() []jprobe {
 			return &gogotypes.Field{Kind: gogotypes.Field_TYPE_INT64, Cardinality: gogotypes.Field_CARDINALITY_REPEATED, Number: 77, Name: "f\"é"}
 		}, func() interface{} { return &gogotypes.Field{} }, "kind", "3", "packed"},
 		{"gogotypes.Int64Value", "gogo", func() interface{} { return &gogotypes.Int64Value{Value: -1 << 62} }, func() interface{} { return &gogotypes.Int64Value{} }, "", "", ""},
-		{"LegacyV1", "googlev1", func() interface{} { return &LegacyV1{A: i32(-7), S: str("lég\"acy"), R: []int64{1, -1, 1 << 53}, B: []byte{0, 255}} },
+		{"LegacyV1", "googlev1", func() interface{} {
+			return &LegacyV1{A: i32(-7), S: str("lég\"acy"), R: []int64{1, -1, 1 << 53}, B: []byte{0, 255}}
+		},
 			func() interface{} { return &LegacyV1{} }, "", "", ""},
 	}
 }
@@ -148,7 +150,7 @@ func streamC18(r *hx.Rng) {
 					}
 					obsEnum := enumNums
 					if p.enumKey != "" {
-						obsEnum = regexp.MustCompile(`"`+p.enumKey+`":\s*`+p.enumNum+`\b`).MatchString(s)
+						obsEnum = regexp.MustCompile(`"` + p.enumKey + `":\s*` + p.enumNum + `\b`).MatchString(s)
 					}
 					obsZero := zero
 					if p.zeroKey != "" {
